@@ -334,6 +334,34 @@ def run_shard(shard, tier, seed):
         if len(samples) < 2:
             samples.append({'type': t, 'instances': ninst, 'schedule': schedule[:20],
                             'histories': [hist.case_string(h) for h in hists]})
+    # ---- instances created with checking off and switched on later (public xsd_check setter) are instances like any other:
+    # what one of them is given must not show in another one, nor in the shared template (checked below)
+    for rep in range(2):
+        made = []
+        for i in range(3):
+            r = lib.call(lambda: lib.make(cls, check=False, with_required=True))
+            if r[0] == 'exc':
+                break
+            r[1].xsd_check = True
+            made.append(r[1])
+        if len(made) < 3:
+            break
+        word = list(ref.shortest_word(t)) or [d.alphabet[0]]
+        if rep == 1:
+            word = list(d.random_word(rnd, 8)) or word
+        for sname in word:
+            lib.call(made[0].add_child, lib.make(lib.child_cls(sname)))
+        evals += 1
+        nontriv += 1
+        for j in (1, 2):
+            if made[j].get_children(True) or made[j].get_children(False):
+                v('instances-created-unchecked-share-state', {'word': word}, {'sibling_children': lib.names(made[j])[:6]})
+                break
+        lib.call(made[1].add_child, lib.make(lib.child_cls(word[0])))
+        if len(made[0].get_children(False)) != sum(1 for x in word if True) and \
+                len(made[0].get_children(True)) > len(made[0].get_children(False)):
+            v('instances-created-unchecked-share-state', {'word': word}, {'direction': 'sibling addition shows in first'})
+        c['toggled_instance_probes'] += 1
     # ---- an element and its deep copy are unrelated instances: removing / changing attributes, value or children of one
     # must not show in the other (both directions)
     usable = [(an, at) for an, at, req in ref.attr_table(t) if at is not None and an != 'name'][:4]
